@@ -3,6 +3,7 @@ append reads back as the records submitted (explicit-state search over
 histories on the real Writer, replay-from-fresh)."""
 import copy
 import io
+import os
 
 from ..harness import UnitResult, Violation, short, note_case
 from .. import cont
@@ -13,10 +14,11 @@ LEVEL = "model_checking"
 RULE = (
     "explicit-state search: a node is an operation history applied to a fresh real fastavro Writer on a BytesIO "
     "(build(hist) replays from scratch). Alphabet: w_small, w_large (>= mid interval), w_bad_first (fails before any byte), "
-    "w_bad_last (fails after earlier fields were encoded), flush, copy_block(donor codec null/deflate [thorough: +bzip2,xz]), "
+    "w_bad_last (fails after earlier fields were encoded), flush, copy_block(donor codec null/deflate [thorough: +bzip2,xz]; also a "
+    "block whose records were iterated before the copy), "
     "reopen for append with {schema None, same, different schema, other codec, other metadata, other marker}; zero-byte "
     "configuration: w_zero, flush, copy_block, reopen. Configurations: codec x sync_interval {1, mid, huge} x validator "
-    "on/off. ALL histories up to the stated depth are executed; invariant after every flush/reopen: real reader AND the "
+    "on/off, plus three configurations on a real buffered file that is read back through a second handle. ALL histories up to the stated depth are executed; invariant after every flush/reopen: real reader AND the "
     "independent container parser return exactly the reference model's list (records whose write returned normally + "
     "donor records), header bytes unchanged since creation; after EVERY operation block_count equals the number of records "
     "the independent decoder finds in the pending buffer (consuming it exactly). Breadth-first with state merging: states = "
@@ -35,7 +37,7 @@ S = {"type": "record", "name": "Rec", "namespace": "h", "fields": [
 S_OTHER = {"type": "record", "name": "Other", "fields": [{"name": "zz", "type": "double"}]}
 Z = {"type": "record", "name": "Zero", "fields": [{"name": "n", "type": "null"}]}
 
-OPS_S = ["w_small", "w_large", "w_bad_first", "w_bad_last", "flush", "copy_null", "copy_deflate",
+OPS_S = ["w_small", "w_large", "w_bad_first", "w_bad_last", "flush", "copy_null", "copy_deflate", "copyiter_null",
          "reopen_none", "reopen_same", "reopen_diff", "reopen_codec", "reopen_meta", "reopen_marker"]
 OPS_Z = ["w_zero", "w_zero_omitted", "flush", "copy_null", "reopen_none", "reopen_codec"]
 DEPTH = {"quick": 5, "thorough": 7}
@@ -49,6 +51,10 @@ def configs(tier):
         for iv in ("one", "mid", "huge"):
             for validator in (False, True):
                 out.append(("S", codec, iv, validator))
+    # a real buffered file, read back through a SECOND handle: flush must reach the operating system
+    out.append(("SF", "null", "one", False))
+    out.append(("SF", "deflate", "huge", False))
+    out.append(("SF", "null", "mid", True))
     for codec in codecs[:2]:
         for iv in ("one", "huge"):
             out.append(("Z", codec, iv, False))
@@ -96,17 +102,29 @@ class World:
 
         self.fa, self.Writer = fa, Writer
         self.kind, self.codec, iv, self.validator = cfg
+        self.on_file = self.kind == "SF"
+        if self.on_file:
+            self.kind = "S"
         self.schema = S if self.kind == "S" else Z
         self.interval = {"one": 1, "mid": 24, "huge": 10 ** 9}[iv]
         self.marker = cont.sync_marker()
-        self.fo = io.BytesIO()
+        if self.on_file:
+            import tempfile
+
+            self._dir = tempfile.mkdtemp(prefix="verif-c07-")
+            self.path = os.path.join(self._dir, "f.avro")
+            self.fo = open(self.path, "w+b")
+        else:
+            self.fo = io.BytesIO()
         self.w = Writer(self.fo, copy.deepcopy(self.schema), codec=self.codec, sync_interval=self.interval,
                         validator=self.validator, sync_marker=self.marker, metadata={"origin": "created"})
         self.model = []
         self.counter = 0
         self.header = None
         self.node, self.defs = names.resolve(self.schema)
-        self.header = self.fo.getvalue()
+        if self.on_file:
+            self.fo.flush()
+        self.header = self.contents()
         self.hdr_end = container.header_end(self.header)
         self.problems = []
 
@@ -140,9 +158,12 @@ class World:
             self._write({}, False)
         elif op == "flush":
             self.w.flush()
-        elif op.startswith("copy_"):
-            data, recs = donor(self.fa, self.kind, op[5:])
+        elif op.startswith("copy_") or op.startswith("copyiter_"):
+            data, recs = donor(self.fa, self.kind, op.split("_", 1)[1])
             blk = next(iter(self.fa.block_reader(io.BytesIO(data))))
+            if op.startswith("copyiter_"):
+                seen = list(blk)  # the block's records were looked at (e.g. to filter blocks) before it is copied
+                assert len(seen) == len(recs)
             self.w.write_block(blk)
             self.model += recs
         elif op.startswith("reopen_"):
@@ -165,13 +186,29 @@ class World:
         else:
             raise AssertionError(op)
 
+    def contents(self):
+        """What a reader of the stream sees now (for a real file: through a second handle)."""
+        if self.on_file:
+            with open(self.path, "rb") as f:
+                return f.read()
+        return self.fo.getvalue()
+
+    def close(self):
+        if self.on_file:
+            import shutil
+
+            try:
+                self.fo.close()
+            finally:
+                shutil.rmtree(self._dir, ignore_errors=True)
+
     # ---- observations
     def pending(self):
         return self.w.io._fo.getvalue()
 
     def state_key(self):
         w = self.w
-        return key((self.fo.getvalue(), self.pending(), w.block_count, [repr(m) for m in self.model], self.counter,
+        return key((self.contents() if not self.on_file else (self.contents(), self.fo.tell()), self.pending(), w.block_count, [repr(m) for m in self.model], self.counter,
                     getattr(w.block_writer, "__name__", repr(w.block_writer)), w.sync_marker, w.sync_interval, w.compression_level,
                     bool(w.validate_fn), repr(sorted((k, v) for k, v in w.schema.items() if not k.startswith("__")) if isinstance(w.schema, dict) else w.schema),
                     sorted(w._named_schemas), repr(sorted(w.options.items()))))
@@ -194,7 +231,7 @@ class World:
 
     def check_file(self):
         out = []
-        data = self.fo.getvalue()
+        data = self.contents()
         exp = [conform.normalise(self.node, self.defs, m) for m in self.model]
         if data[:len(self.header)] != self.header:
             out.append(("header-changed", "header bytes differ from those written at creation"))
@@ -218,6 +255,19 @@ def run_history(fa, cfg, hist, res, states, check_all):
     """Replay hist on a fresh world; evaluate the invariants after each op when
     check_all, else only after the last one."""
     w = World(fa, cfg)
+    try:
+        return _run_history(w, fa, cfg, hist, res, check_all)
+    finally:
+        w.key_cached = None
+        if w.on_file:
+            try:
+                w.key_cached = w.state_key()
+            except Exception:
+                pass
+        w.close()
+
+
+def _run_history(w, fa, cfg, hist, res, check_all):
     info = {"config": cfg, "history": list(hist)}
     for i, op in enumerate(hist):
         try:
@@ -247,7 +297,7 @@ def run_unit(ci, tier):
     depth = DEPTH[tier]
     res = UnitResult()
     w0 = run_history(fa, cfg, [], res, None, check_all=True)
-    seen = {w0.state_key()}
+    seen = {w0.key_cached if w0.on_file else w0.state_key()}
     frontier = [[]]
     closed_at = None
     for d in range(1, depth + 1):
@@ -261,7 +311,7 @@ def run_unit(ci, tier):
                 w = run_history(fa, cfg, h2, res, None, check_all=False)
                 if w is None:
                     continue
-                k = w.state_key()
+                k = w.key_cached if w.on_file else w.state_key()
                 if k not in seen:
                     seen.add(k)
                     nxt.append(h2)
